@@ -6,15 +6,16 @@ real code run on the same observations with an unambiguous labelling.
 
 * velocities are recognisable (`rv = (1000·(survey+1) + index)·f`), so the source and input position of every
   merged row is read off the output: the labelled multiset is compared exactly;
-* the merged rows are sorted with numpy's unstable sort, so epochs shared by several surveys may come out in
-  any order: the permutation the real code produced is read off its output and given to the model, which accepts
-  it only if it is a permutation of all rows that sorts the times (`Data.validPerm`);
+* the property does not fix the order of the merged rows (time-sorted, concatenation order, ties in any order):
+  the permutation of the concatenation the real code produced is read off its output and given to the model, which
+  accepts any permutation of all rows (`Data.isPermOfRange`) and gathers rows *and labels* by it;
 * on any difference the property's own predicate is decided without the model: (1) the multiset of
-  `(t, rv, err, ids[row])` equals the union of the inputs tagged with their key, (2) times sorted, (3) the constant
+  `(t, rv, err, ids[row])` equals the union of the inputs tagged with their key, (2) the reference epoch is the
+  earliest epoch, (3) the constant
   block of the design matrix has a one in column 0 and, in column 1+j, a one exactly on the rows whose *true*
-  source (from the recognisable velocity) has the (j+1)-th smallest key, (4) trend columns = (t - t_min)^l;
+  source (from the recognisable velocity) owns that column, (4) trend columns = (t - t_min)^l;
 * end to end: `TheJoker.marginal_ln_likelihood(data)` vs the *same real kernel* (`CJokerHelper` +
-  `marginal_ln_likelihood_inmem`) fed with the harness' own merge: rows sorted by the harness, labels taken from the
+  `marginal_ln_likelihood_inmem`) fed with the harness' own merge: rows held in the order of the implementation's merge, labels taken from the
   observations themselves, indicator columns built from those labels (nothing of `validate_prepare_data` /
   `_make_joker_helper` is used for the reference).  The reference key -> column rule is the code's (smallest key
   is the reference, columns in key order; list input: source k -> dv0_k).
@@ -40,7 +41,7 @@ import numpy as np
 
 NEEDS_KERNEL = True
 
-RULE = ("2..4 (thorough ..6) sources of 1..8 epochs (a quarter of the cases: >16 merged rows), layouts interleaved / "
+RULE = ("merged rows accepted in any order (time-sorted or concatenation order); 2..4 (thorough ..6) sources of 1..8 epochs (a quarter of the cases: >16 merged rows), layouts interleaved / "
         "disjoint in list order / disjoint in reverse order / identical epochs / partial overlap / all epochs tied, "
         "each source given sorted or shuffled; list, dict with integer keys (random, non-contiguous, negative) or "
         "string keys (random order, code-point traps) ; same or mixed velocity units; poly_trend 1..3.  Non-trivial = "
@@ -309,8 +310,15 @@ def run_merge(ctx, g, rng):
                 why, what = (f"row {r} holds observation {i} of source {c['keys'][s]!r} (t={t_out[r]!r}, rv={rv_out[r]!r}) "
                              f"but is labelled {ids_out[r]!r}"), "labels"
                 break
-    if why is None and any(not (a <= b) for a, b in zip(t_out[:-1], t_out[1:])):
-        why, what = "merged times are not sorted", "sorted"
+    # the order of the merged rows is not part of the property (time-sorted and concatenation order are both fine)
+    if why is None:
+        cat_order = [(s, i) for s in range(nsurv) for i in range(c["sizes"][s])]
+        if src_of_row == cat_order:
+            ctx.count("merged-order:concatenation")
+        elif all(a <= b for a, b in zip(t_out[:-1], t_out[1:])):
+            ctx.count("merged-order:time-sorted")
+        else:
+            ctx.count("merged-order:other")
     uq = key_sort(c["keys"])
     if why is None:
         if M.shape != (n, nsurv + p - 1):
@@ -357,7 +365,11 @@ def run_merge(ctx, g, rng):
                     why, what = f"trend column {l} of row {r} is {M[r, nsurv + l - 1]!r}, expected (t-t_min)^{l} = {float(ex)!r}", "trend"
                     break
 
-    crossing = any(src_of_row[r][0] != sorted(src_of_row)[r][0] for r in range(len(src_of_row))) if len(src_of_row) == n else True
+    # non-trivial: sorting the concatenation by time moves at least one row across a source boundary, so an
+    # implementation that re-orders rows and labels differently is exposed
+    cat_t = np.concatenate(tb)
+    cat_s = np.concatenate([[s] * c["sizes"][s] for s in range(nsurv)])
+    crossing = bool(np.any(cat_s[np.argsort(cat_t, kind="stable")] != cat_s))
     if crossing:
         ctx.count("sort-crosses-source-boundary")
     # ---- the model on the observed permutation
@@ -593,9 +605,14 @@ def run_e2e(ctx, g, rng):
     from thejoker.likelihood_helpers import marginal_ln_likelihood_inmem
 
     def reference(order, labels_of_rows):
-        """the kernel on the harness' own merge: rows in time order, indicator columns from the given labels (nothing
-        of validate_prepare_data / _make_joker_helper is used)"""
+        """the kernel on the harness' own merge: the rows in the given order, indicator columns from the given labels
+        (nothing of validate_prepare_data / _make_joker_helper is used)"""
         ad = RVData(Time(cat_t[order], format="mjd", scale="tcb"), cat_rv[order] * u.km / u.s, cat_err[order] * u.km / u.s)
+        # RVData sorts by time; the kernel does not care about the order of the rows, so put them in the requested
+        # order (that of the implementation's merge): a correct implementation then gives identical kernel inputs
+        ad._t_bmjd = np.array(cat_t[order], dtype="f8")
+        ad.rv = cat_rv[order] * u.km / u.s
+        ad.rv_err = cat_err[order] * u.km / u.s
         lab = labels_of_rows(ad)
         Mc = np.zeros((n, nsurv))
         Mc[:, 0] = 1.0
@@ -610,25 +627,27 @@ def run_e2e(ctx, g, rng):
         return np.array(marginal_ln_likelihood_inmem(helper, packed), dtype="f8")
 
     order = np.argsort(cat_t, kind="stable")
-    # put tied rows in the order the implementation's own merge holds them, so that a correct implementation is
-    # compared on identical kernel inputs (the labels of the reference never come from the implementation)
+    # hold the rows in the order of the implementation's own merge (whatever it is), so that a correct
+    # implementation is compared on identical kernel inputs (the labels of the reference never come from the
+    # implementation)
     try:
         from thejoker.data_helpers import validate_prepare_data
         ad_impl = validate_prepare_data(data, p, q)[0]
         pos = {(bits(a), bits(b), bits(c_)): k for k, (a, b, c_) in enumerate(zip(cat_t, cat_rv, cat_err))}
         o2 = [pos.get((bits(a), bits(b), bits(c_)), -1)
               for a, b, c_ in zip(ad_impl._t_bmjd, ad_impl.rv.value, ad_impl.rv_err.value)]
-        if sorted(o2) == list(range(n)) and np.all(np.diff(cat_t[o2]) >= 0):
+        if sorted(o2) == list(range(n)):
             order = np.array(o2)
             ctx.count("e2e:row-order-matched")
     except Exception:
         ctx.count("e2e:row-order-not-matched")
 
-    def true_labels(ad):   # from the observations themselves, whatever order RVData put tied rows in
+    def true_labels(ad):   # from the observations themselves
         return [where[(bits(a), bits(b), bits(c_))] for a, b, c_ in zip(ad._t_bmjd, ad.rv.value, ad.rv_err.value)]
 
     ll_ref = reference(order, true_labels)
-    ll_cat = reference(order, lambda ad: [int(s) for s in cat_src])   # labels left in concatenation order
+    # the seeded mistake: rows in time order, labels left in concatenation order
+    ll_cat = reference(np.argsort(cat_t, kind="stable"), lambda ad: [int(s) for s in cat_src])
     tol = 1e-5 * (1 + np.abs(ll_ref))
     sensitive = bool(np.any(np.abs(ll_cat - ll_ref) > 100 * tol))
     if sensitive:
